@@ -8,6 +8,7 @@
 package main
 
 import (
+	"time"
 	"context"
 	"fmt"
 	"strings"
@@ -759,6 +760,7 @@ func main() {
 	vlib.Main(vlib.Spec{
 		ID:    "C10",
 		Level: "model_checking",
+		CaseTimeout: 30 * time.Minute,
 		Rule:  "programs = all valid assignments of operation sequences (17-op alphabet over handles c0,c1,weak on hook R; pc,pc1 + ClientPromise on promise hook RP; t on hook R2) to 1-3 symmetric threads; for each program all schedules of the real capability.go up to the preemption bound under the controlled scheduler; oracle = reference-count model stepped from the recorded op/hook event log. A program is non-trivial if it had more than one schedule or more than one distinct outcome. states = sum over programs of distinct scheduling configurations (enabled set x pending operations); transitions = scheduling steps executed; traces = executions, all on the implementation.",
 		Assumptions: []string{
 			"scheduling points at every sync operation (mutex lock, channel close/receive/select, go) are sufficient because capability.go has no unsynchronised shared accesses (checked separately by a free-running -race pass, which decides nothing)",
